@@ -146,7 +146,9 @@ impl ToTokens for FromMetaImpl<'_> {
                                 if let ::darling::export::NestedMeta::Meta(ref __nested) = __outer[0] {
                                     // Every error of the selected variant concerns this nested item,
                                     // not the whole list it sits in.
-                                    (match ::darling::util::path_to_string(__nested.path()).as_ref() {
+                                    // A keyword can only be written as a raw identifier: `r#match` names `match`.
+                                    let __name = ::darling::util::path_to_string(__nested.path());
+                                    (match __name.strip_prefix("r#").unwrap_or(__name.as_str()) {
                                         #(#data_variants)*
                                         __other => ::darling::export::Err(::darling::Error::#unknown_variant_err)
                                     }).map_err(|e: ::darling::Error| e.with_span(__nested))
